@@ -105,6 +105,11 @@ pub struct Opts {
     pub mvt: u8,
     pub rustfmt: bool,
     pub validate: bool,
+    /// capabilities the validator is given (only with `validate`): 0 the crate's default (all),
+    /// 1 naga's default set, 2 none - the same shader is accepted under one and rejected under
+    /// another
+    #[serde(default)]
+    pub caps: u8,
 }
 
 impl Opts {
@@ -117,6 +122,7 @@ impl Opts {
             mvt: 0,
             rustfmt: false,
             validate: false,
+            caps: 0,
         }
     }
 
@@ -129,6 +135,7 @@ impl Opts {
             mvt: rng.below(3) as u8,
             rustfmt: false,
             validate: rng.bool(),
+            caps: 0,
         }
     }
 
@@ -144,20 +151,31 @@ impl Opts {
                 _ => wgsl_to_wgpu::MatrixVectorTypes::Nalgebra,
             },
             rustfmt: self.rustfmt,
-            validate: self.validate.then(Default::default),
+            validate: self.validate.then(|| wgsl_to_wgpu::ValidationOptions {
+                capabilities: match self.caps {
+                    0 => wgsl_to_wgpu::ValidationOptions::default().capabilities,
+                    1 => wgsl_to_wgpu::WgslCapabilities::default(),
+                    _ => wgsl_to_wgpu::WgslCapabilities::empty(),
+                },
+            }),
         }
     }
 
     pub fn describe(&self) -> String {
         format!(
-            "bv{}bh{}en{}se{}mvt{}fmt{}val{}",
+            "bv{}bh{}en{}se{}mvt{}fmt{}val{}{}",
             self.bytemuck_vertex as u8,
             self.bytemuck_host as u8,
             self.encase_host as u8,
             self.serde as u8,
             self.mvt,
             self.rustfmt as u8,
-            self.validate as u8
+            self.validate as u8,
+            match (self.validate, self.caps) {
+                (true, 1) => "+fewcaps",
+                (true, 2) => "+nocaps",
+                _ => "",
+            }
         )
     }
 }
